@@ -128,8 +128,11 @@ def main(argv=None) -> int:
     try:
         mod, ctx = run_rules(pid, args.repo, args.tier, seed)
         floors = getattr(mod, "FLOORS", {})
-        for rule, n in floors.items():
-            ctx.floor(rule, n)
+        if not any(not o.ok for o in ctx.obligations):
+            # a rule that silently matches nothing would pass forever; but a
+            # found violation is never masked by a floor
+            for rule, n in floors.items():
+                ctx.floor(rule, n)
         selftest = None
         if args.tier == "thorough" and not args.no_selftest and \
                 hasattr(mod, "VARIANTS") and not args.json:
